@@ -166,6 +166,15 @@ class Gen:
             elif c < 0.6:
                 # parameterised split (not validated by the API)
                 o["split"] = {s: ({"p": "kappa"} if i == 0 else frac(r)) for i, s in enumerate(strata)}
+            # dictionaries need not be written in the order of the strata
+            if o.get("split") and r.random() < 0.5:
+                items = list(o["split"].items())
+                r.shuffle(items)
+                o["split"] = dict(items)
+            if kind == "age" and r.random() < 0.3:
+                shuffled = list(strata)
+                r.shuffle(shuffled)
+                o["strata"] = shuffled
             # flow adjustments
             fadj = []
             if not want.get("unadjusted", False):
